@@ -46,6 +46,7 @@ type c17World struct {
 	steps   []string
 	desc    []string
 	failed  string
+	dropped [][]byte // buffers of refused frames: kept referenced so that their addresses are not reused
 }
 
 func newC17World(c *Ctx) *c17World {
@@ -317,6 +318,49 @@ func (w *c17World) opFailedReply() {
 	w.othersUnchanged(before, -1, desc)
 }
 
+// opFailedParse: the link reader took a buffer from the pool, read a malformed frame into it and
+// ParseFrame refused it (too short, unknown version, switch block or message reaching beyond the
+// frame).  The reader drops the buffer (it is neither a frame nor back in the pool: the model
+// takes no step), every live frame is untouched, and later frames still get buffers of their own.
+func (w *c17World) opFailedParse() {
+	c := w.c
+	off := []int{2, 12, 12, 30}[c.Rng.IntN(4)]
+	n := []int{100, 330, 590, 900, 1500, 4000}[c.Rng.IntN(6)]
+	data := randBytes(c, n)
+	data[0], data[48] = 1, 0
+	kind := []string{"switch-block-beyond-frame", "message-beyond-frame", "short", "wrong-version", "empty"}[c.Rng.IntN(5)]
+	switch kind {
+	case "switch-block-beyond-frame":
+		data = data[:100]
+		data[48] = 255
+	case "message-beyond-frame":
+		data[49], data[50] = byte(0x80+c.Rng.IntN(0x7f)), byte(c.Rng.IntN(256))
+	case "short":
+		data = data[:1+c.Rng.IntN(67)]
+	case "wrong-version":
+		data[0] = byte(2 + c.Rng.IntN(250))
+	default:
+		data = data[:0]
+	}
+	before := w.observeAll()
+	ps := w.b.GetPooledSlice(off + len(data) + 1)
+	copy(ps[off:], data)
+	var err error
+	pan, _ := recoverPanic(func() { _, err = w.b.ParseFrame(ps[off:off+len(data)], ps, off) })
+	desc := fmt.Sprintf("FailedParse(%s,len=%d,off=%d)", kind, len(data), off)
+	if pan {
+		w.violate("ParseFrame panicked on a malformed frame: "+desc, "parse-panic")
+		return
+	}
+	if err == nil {
+		w.violate("ParseFrame accepted a malformed frame: "+desc, "parse-malformed-accepted")
+		return
+	}
+	w.dropped = append(w.dropped, ps)
+	w.desc = append(w.desc, desc)
+	w.othersUnchanged(before, -1, desc)
+}
+
 func (w *c17World) opParse() {
 	c := w.c
 	// build valid frame bytes with a scratch builder, then feed them as the link reader does
@@ -568,6 +612,10 @@ func runC17(c *Ctx) error {
 				if c.Rng.IntN(4) == 0 {
 					w.opFailedNew()
 					c.Count("op:failed-new")
+				}
+				if c.Rng.IntN(3) == 0 {
+					w.opFailedParse()
+					c.Count("op:failed-parse")
 				}
 				w.opParse()
 				c.Count("op:parse")
